@@ -82,7 +82,10 @@ def r1(ctx):
                   "signal SIG%s is queued by the master but there is no method %s: it would be logged as unhandled and ignored" % (s, hn), "handler exists")
     # registration: every SIGNALS member -> self.signal, SIGCHLD -> handle_chld
     # (wherever the arbiter installs its handlers: init_signals, or start() with init_signals folded into it)
-    regfs = [ff for ff in cls.methods.values() if calls_to(repo, ff, "signal.signal")]
+    # (a method that gives signals a disposition for the *forked child* -- spawn_worker before init_process -- is not it: the
+    # master's registration is the one that binds the arbiter's own queueing handler / handle_chld)
+    regfs = [ff for ff in cls.methods.values()
+             if any(len(c.args) > 1 and repo.resolve(ff.module, ff, c.args[1]) in ("self.signal", "self.handle_chld") for c in calls_to(repo, ff, "signal.signal"))]
     ctx.need(len(regfs) == 1, "C03.R1: expected one Arbiter method that installs signal handlers, found %s" % sorted(ff.name for ff in regfs))
     f_is = ctx.fn(regfs[0])
     regs = calls_to(repo, f_is, "signal.signal")
